@@ -42,14 +42,15 @@ static void s_reset(void) {
     s_raw = false;
 }
 
-static void s_new_decoder(const uint8_t *p, size_t n, bool raw) {
+static void s_new_decoder(const uint8_t *p, size_t n, bool raw, bool null_src) {
     s_drop_decoder();
     s_dec_src = malloc(n ? n : 1);
     if (n) {
         memcpy(s_dec_src, p, n);
     }
-    /* n == 0: hand over a NULL/0 cursor as a caller with no data would */
-    struct aws_byte_cursor c = {.len = n, .ptr = n ? s_dec_src : NULL};
+    /* n == 0: either a {NULL, 0} cursor (what a zero-initialised cursor is) or a zero-length cursor whose pointer is the
+     * one-past-the-end address of a live block: any read through it is an ASan report */
+    struct aws_byte_cursor c = {.len = n, .ptr = n ? s_dec_src : (null_src ? NULL : s_dec_src + 1)};
     s_dec = aws_cbor_decoder_new(hc_allocator(), c);
     s_raw = raw;
 }
@@ -250,6 +251,9 @@ int main(void) {
             double d;
             memcpy(&d, &bits, 8);
             aws_cbor_encoder_write_float(s_enc, d);
+        } else if ((!strcmp(op, "text") || !strcmp(op, "bytes")) && n == 2 && !strcmp(t[1], "NULL")) {
+            /* the empty string as a zero-initialised cursor {NULL, 0}: a valid aws_byte_cursor */
+            s_write_str(op[0] == 't', NULL, 0);
         } else if ((!strcmp(op, "text") || !strcmp(op, "bytes")) && n == 2) {
             size_t len;
             uint8_t *p = hc_hex_decode(t[1], &len);
@@ -293,15 +297,17 @@ int main(void) {
             printf("\nW cap %zu\n", ((struct enc_view *)s_enc)->encoded_buf.capacity);
         } else if (!strcmp(op, "load") && n == 1) {
             struct aws_byte_cursor c = aws_cbor_encoder_get_encoded_data(s_enc);
-            s_new_decoder(c.ptr, c.len, false);
+            s_new_decoder(c.ptr, c.len, false, true);
+        } else if (!strcmp(op, "dec") && n == 2 && !strcmp(t[1], "NULL")) {
+            s_new_decoder(NULL, 0, true, true);
         } else if (!strcmp(op, "dec") && n == 2) {
             size_t len;
             uint8_t *p = hc_hex_decode(t[1], &len);
-            s_new_decoder(p, len, true);
+            s_new_decoder(p, len, true, false);
             free(p);
         } else if (!strcmp(op, "decode_all") && n == 1) {
             struct aws_byte_cursor c = aws_cbor_encoder_get_encoded_data(s_enc);
-            s_new_decoder(c.ptr, c.len, false);
+            s_new_decoder(c.ptr, c.len, false, true);
             s_all();
         } else if (!s_dec) {
             printf("bad-op\n");
